@@ -9,7 +9,7 @@ T2         : an oracle written from docs/source/config.rst and the property stat
              every result of the real code; discrepancies are re-run in a fresh interpreter, shrunk and reported with a
              signature computed from the minimal case.
 """
-import os, sys, json, re, subprocess, tempfile, shutil, copy, itertools
+import os, sys, json, re, subprocess, tempfile, shutil, copy, itertools, time
 from concurrent.futures import ThreadPoolExecutor
 import core
 
@@ -135,9 +135,11 @@ def judge(spec, case, res, base):
 # ------------------------------------------------------------------ flags
 STRATS = ['inline', 'use-base', 'use-local', 'use-remote']
 BOOL_IGN = ['sources', 'outputs', 'attachments', 'metadata', 'id', 'details']
-def flag_argv(o, v):
+# --log-level lives on the top-level parser only for the two git drivers (their sub-parsers do not repeat it)
+PRE_LOG = {'git-nbdiffdriver', 'git-nbmergedriver'}
+def flag_argv(ep, o, v):
     """(pre, argv) realising dest o = v on the command line"""
-    if o == 'log_level': return ['--log-level', v], []
+    if o == 'log_level': return (['--log-level', v], []) if ep in PRE_LOG else ([], ['--log-level', v])
     if o in BOOL_IGN: return [], [('--' if v else '--ignore-') + o]
     if o == 'port': return [], ['--port', str(v)]
     if o in ('browser', 'ip', 'workdirectory'): return [], ['--' + o, v]
@@ -185,7 +187,7 @@ def file_value(r, o):
 def task_of(case):
     pre, argv = [], []
     for o, v in case.get('flags', {}).items():
-        p, a = flag_argv(o, v); pre += p; argv += a
+        p, a = flag_argv(case['ep'], o, v); pre += p; argv += a
     t = {'op': 'resolve', 'ep': case['ep'], 'files': case['files'], 'pre': pre, 'argv': argv}
     if case.get('no_parser'): t['no_parser'] = True
     return t
@@ -323,7 +325,7 @@ def assignments(case):
     return [(role, s, o) for role, f in case['files'].items() if isinstance(f, dict)
             for s, sec in f.items() if isinstance(sec, dict) for o in sec]
 
-def signature(spec, case, disc, res, bases):
+def signature(spec, case, disc, res, bases, cache):
     kind, o = disc
     asg = assignments(case)
     flags = case.get('flags', {})
@@ -331,13 +333,14 @@ def signature(spec, case, disc, res, bases):
         return 'flag-not-honoured:%s' % o
     if kind in ('option', 'cfg-option') and not flags and len(asg) == 1 and asg[0][2] == o:
         role, s, _ = asg[0]
-        # is the same single assignment honoured for another entry point the section is documented for?
-        others = [e for e in sorted(EP_CLASS) if e != case['ep'] and EP_CLASS[e] in spec.docs.get(s, [])]
-        tasks = [task_of({'ep': e, 'files': case['files'], 'flags': {}}) for e in others]
-        honoured = False
-        for e, r in zip(others, run_shared(tasks)):
-            if not any(k2 == kind and o2 == o for k2, o2, _, _ in judge(spec, {'ep': e, 'files': case['files'], 'flags': {}}, r, bases[e])):
-                honoured = True
+        # is the same single assignment honoured for some entry point the section is documented for?
+        ck = (kind, s, o)
+        if ck not in cache:
+            eps = [e for e in sorted(EP_CLASS) if EP_CLASS[e] in spec.docs.get(s, []) and not (kind == 'option' and e in NO_PARSER)]
+            rs = run_shared([task_of({'ep': e, 'files': case['files'], 'flags': {}}) for e in eps])
+            cache[ck] = {e for e, r in zip(eps, rs)
+                         if not any(k2 == kind and o2 == o for k2, o2, _, _ in judge(spec, {'ep': e, 'files': case['files'], 'flags': {}}, r, bases[e]))}
+        honoured = bool(cache[ck] - {case['ep']})
         return 'section-value-ignored:%s.%s%s' % (s, o, '@' + case['ep'] if honoured else '')
     if kind in ('ignore', 'cfg-ignore') and len(asg) == 1:
         return 'section-ignore-map-ignored:%s' % asg[0][1]
@@ -418,7 +421,7 @@ def setup(chk):
         chk.violation('entrypoint-table-differs-from-documentation', {'entrypoint_configurables': tables['eps']}, {'documented': EP_CLASS})
     base_res = run_fresh([task_of({'ep': ep, 'files': {}, 'flags': {}}) for ep in sorted(EP_CLASS)])
     bases = {ep: base_of(r) for ep, r in zip(sorted(EP_CLASS), base_res)}
-    pdefs = {ep: [o for o in bases[ep]['ns'] if o in tables['classes'].get(EP_CLASS[ep], []) or o == 'log_level'] for ep in EP_CLASS}
+    pdefs = {ep: [o for o in tables['parser_dests'].get(ep, []) if o in tables['classes'].get(EP_CLASS[ep], []) or o == 'log_level'] for ep in EP_CLASS}
     return spec, docs, tables, bases, pdefs
 
 def run(tier, seed):
@@ -428,8 +431,10 @@ def run(tier, seed):
     st = setup(chk)
     if st is None: return chk.finish('proof', ASSUME)
     spec, docs, tables, bases, pdefs = st
+    T = {'setup': time.time() - chk.t0}; t = time.time()
     cases = gen_cases(chk, tier, tables, spec, docs, pdefs)
     results = run_shared([task_of(c) for c in cases])
+    T['impl'] = time.time() - t; t = time.time()
     # ---- T2: the documented rule judged on the real code
     failing = []
     hist = {}; nontrivial = set()
@@ -443,35 +448,35 @@ def run(tier, seed):
             nontrivial.add(canon([c['ep'], c['files'], c.get('flags', {})]))
         for k, o, got, want in judge(spec, c, res, bases[c['ep']]):
             failing.append((i, (k, o), got, want))
-    # confirm each failing case alone in a fresh interpreter (history dependence is itself a violation)
-    uniq = sorted({i for i, _, _, _ in failing})
-    fresh = dict(zip(uniq, run_fresh([task_of(cases[i]) for i in uniq])))
-    intrinsic = []
-    for i, d, got, want in failing:
-        ds = judge(spec, cases[i], fresh[i], bases[cases[i]['ep']])
-        if any((k, o) == d for k, o, _, _ in ds): intrinsic.append((i, d))
-        else:
-            chk.violation('result-depends-on-process-history:%s' % d[0],
-                          {'ep': cases[i]['ep'], 'files': cases[i]['files'], 'flags': cases[i].get('flags', {}),
-                           'after': [{'ep': cases[j]['ep'], 'files': cases[j]['files']} for j in range(i % 12, i, 12)][-6:]},
-                          {'discrepancy': d, 'in_shared_process': got, 'documented_rule': want})
-    shrunk = shrink_all(spec, [(cases[i], d) for i, d in intrinsic], bases)
-    minimal = {}
-    for (case, d) in shrunk:
-        key = canon([case['ep'], case['files'], case.get('flags', {}), d])
-        minimal.setdefault(key, (case, d))
-    mins = list(minimal.values())
-    mres = run_fresh([task_of(c) for c, _ in mins])
-    sigcache = {}
-    for (case, d), res in zip(mins, mres):
+    # shrink all discrepancies in lock-step (shared interpreters), group the minimal cases by structure, then confirm
+    # one representative per group alone in a FRESH interpreter: if it no longer fails there, the result depended on
+    # what the process did before, which is itself a violation
+    shrunk = shrink_all(spec, [(cases[i], d) for i, d, _, _ in failing], bases)
+    T['shrink'] = time.time() - t; t = time.time()
+    groups = {}
+    for (case, d), (i, _, got, want) in zip(shrunk, failing):
+        key = canon([case['ep'], d, sorted((s, o) for _, s, o in assignments(case)), sorted(case.get('flags', {}))])
+        g = groups.setdefault(key, {'case': case, 'd': d, 'n': 0, 'orig': i, 'got': got, 'want': want})
+        g['n'] += 1
+    reps = list(groups.values())
+    fres = run_fresh([task_of(g['case']) for g in reps])
+    hon_cache = {}
+    for g, res in zip(reps, fres):
+        case, d = g['case'], g['d']
         ds = [x for x in judge(spec, case, res, bases[case['ep']]) if (x[0], x[1]) == d]
-        if not ds: continue
-        sig = signature(spec, case, d, res, bases)
-        n = sum(1 for (c2, d2) in shrunk if canon([c2['ep'], c2['files'], c2.get('flags', {}), d2]) == canon([case['ep'], case['files'], case.get('flags', {}), d]))
-        for _ in range(n):
-            chk.violation(sig, {'ep': case['ep'], 'files': case['files'], 'flags': case.get('flags', {})},
-                          {'discrepancy': d[0], 'option': d[1], 'implementation': ds[0][2], 'documented_rule': ds[0][3],
-                           'sections_most_specific_first': spec.sections(case['ep'])})
+        if not ds:
+            i = g['orig']
+            sig = 'result-depends-on-process-history:%s' % d[0]
+            body = {'ep': cases[i]['ep'], 'files': cases[i]['files'], 'flags': cases[i].get('flags', {}),
+                    'after': [{'ep': cases[j]['ep'], 'files': cases[j]['files']} for j in range(i % 12, i, 12)][-6:]}
+            detail = {'discrepancy': d, 'in_shared_process': g['got'], 'documented_rule': g['want']}
+        else:
+            sig = signature(spec, case, d, res, bases, hon_cache)
+            body = {'ep': case['ep'], 'files': case['files'], 'flags': case.get('flags', {})}
+            detail = {'discrepancy': d[0], 'option': d[1], 'implementation': ds[0][2], 'documented_rule': ds[0][3],
+                      'sections_most_specific_first': spec.sections(case['ep'])}
+        for _ in range(g['n']): chk.violation(sig, body, detail)
+    T['signatures'] = time.time() - t; t = time.time()
     # ---- T1: model = implementation
     compared, bad, log = (0, None, 'model not built')
     if os.path.exists(os.path.join(core.COQ, 'Sys', 'Config.vo')):
@@ -481,12 +486,14 @@ def run(tier, seed):
     else:
         for i in bad[:3]:
             chk.broken_obligation('correspondence:config-model', {'case': cases[i], 'implementation': {k: results[i].get(k) for k in ('cfg', 'cfg_none', 'parser')}})
+    T['model'] = time.time() - t
+    chk.notes.append('phase seconds: ' + ', '.join('%s=%.1f' % kv for kv in T.items()))
     chk.cov.update({
         'evaluations': len(cases), 'distinct_nontrivial': len(nontrivial),
         'rule': 'entry point x config files in <=3 of 4 sandboxed directories (cwd, JUPYTER_CONFIG_PATH, JUPYTER_CONFIG_DIR, system) x flag subsets: corpus (refutation witnesses first), every (entry point, documented section, option) alone, random well-typed assignments (12% nulls, 15% sections of other entry points), ill-typed cases for T1 only; non-trivial = well-typed and at least one assignment in a section documented for the entry point, distinct by canonical JSON of (entry point, files, flags)',
         'input_distribution': hist, 'traces_validated_against_impl': compared,
         'model_impl_mismatches': len(bad) if bad is not None else None,
-        'discrepancies_with_documented_rule': len(failing), 'distinct_minimal_discrepancies': len(mins), 'exhaustive': False,
+        'discrepancies_with_documented_rule': len(failing), 'distinct_minimal_discrepancies': len(reps), 'exhaustive': False,
     })
     for c in cases[:2] + cases[len(CORPUS) + 300:len(CORPUS) + 302] + cases[-1:]:
         chk.sample({'ep': c['ep'], 'files': c['files'], 'flags': c.get('flags', {})})
